@@ -17,7 +17,7 @@ META = {
                    "(R-width at all call sites, construction sites, cursor invariant). Loops: every cycle is driven by a finite iterator on a loop-local "
                    "iterator whose None arm exits; the call graph is acyclic. Every decode error maps to Message::Corrupt (E-map).",
     "assumptions": ["the optimised profile executes the same MIR-level operations minus the overflow asserts (its panic sites are a subset)",
-                    "float finiteness of decoded fields is decided with the field models of C08 (rule F-fin there)"],
+                    "F-fin: every float field decodes as cast(p)*res+bias with finite constants and a magnitude far below the type's maximum (field models shared with C08)"],
 }
 
 
@@ -37,6 +37,8 @@ def run(ctx, res):
     dec = dispatch.decode_table(prog, res, rule="E-map")
     framing.rules_scan(prog, res, m)
     framing.rules_iter(prog, res)
+    import fieldmodel
+    fieldmodel.check_fields(prog, res, prop="C02")
     panics.check_residue_support(inv, res)
     res.extra["closure_functions"] = len(cl)
     res.extra["inventory"] = inv.stats
